@@ -14,6 +14,9 @@ from libcheck import Workload
 from vlib import log
 
 LEVEL_MC = "model_checking"
+# spec-flagged findings and the properties they are violations of
+KF_OWNER = {"v1-id-reuse": ("C07", "C15"), "v1-track-id-reuse": ("C15",)}
+MAX_REPORTED = 5   # rejections confirmed and reported per run (the rest is only counted)
 
 
 # --------------------------------------------------------------------------------------------
@@ -33,12 +36,16 @@ def history_check(prop, tier, seed, build_workloads, module="TraceLibrary", cfg=
     violations = []
     kf_seen = {}
     nrep = 0
+    unconfirmed = 0
     for sh in shards:
         v = sh["val"]
         for note in v["kf"]:
             kf_seen.setdefault(note["kf"], (sh, note))
         for rej in v["rejected"]:
             nrep += 1
+            if len(violations) >= MAX_REPORTED:
+                unconfirmed += 1
+                continue
             payload = libcheck.confirm_rejection(binary, sh, rej, wd, nrep, module, cfg, watchdog=watchdog)
             if payload is None:
                 log("note: rejection in %s did not repeat on re-run; not reported" % sh["base"])
@@ -46,6 +53,9 @@ def history_check(prop, tier, seed, build_workloads, module="TraceLibrary", cfg=
             violations.append(payload)
         for ev in sh["events"]:
             nrep += 1
+            if len(violations) >= MAX_REPORTED:
+                unconfirmed += 1
+                continue
             # the execution in which the process died / hung: replay it alone
             rej = {"exec_index": max(ev["exec"] - 1, 0)}
             payload = libcheck.confirm_rejection(binary, sh, rej, wd, nrep, module, cfg, watchdog=watchdog)
@@ -56,6 +66,8 @@ def history_check(prop, tier, seed, build_workloads, module="TraceLibrary", cfg=
             violations.append(payload)
     # known findings flagged by the specification itself
     for name, (sh, note) in sorted(kf_seen.items()):
+        if prop not in KF_OWNER.get(name, ()):
+            continue   # not a statement of this property; the step is judged by the owning property's check
         if name in known_by_kf:
             print("KNOWN-FINDING: property=%s %s: %s" % (prop, name, known_by_kf[name]["what"]))
         else:
@@ -87,6 +99,8 @@ def history_check(prop, tier, seed, build_workloads, module="TraceLibrary", cfg=
         path = vlib.replay_file(prop, i + 1, p)
         log("violation: %s | %s" % (p.get("reason"), libcheck.describe(p.get("offending_record"))))
         print("VIOLATION property=%s replay=%s" % (prop, path))
+    if unconfirmed:
+        log("%d further rejections were not re-run (report cap %d)" % (unconfirmed, MAX_REPORTED))
     log("%s %s: %d executions (%d accepted), %d records, drive %.0fs validate %.0fs, total %.0fs" % (
         prop, tier, summary["executions"], summary["accepted"], summary["records"], summary["drive_s"],
         summary["validate_s"], time.time() - t0))
@@ -166,3 +180,120 @@ def replay(prop, path):
         return 1
     log("replay: accepted")
     return 0
+
+
+def check_C08(tier, seed):
+    """Crate contents are exactly the tracks added and not removed."""
+    def build(wd, mc_stats):
+        ws = []
+        cache = {}
+
+        def scripts_for(fam, mc, mt, mo, pre):
+            key = (fam, mc, mt, mo, pre)
+            if key not in cache:
+                st, sc = vlib.mc_forest(wd, fam, mc, mo, max_tracks=mt, with_tracks=True, crate_ops="basic",
+                                        opnames=("a",), pre=pre)
+                mc_stats.append(st)
+                cache[key] = (st, sc)
+            return cache[key]
+
+        if tier == "quick":
+            full = ["1.6.0", "1.18.0o", "2.21.2"]
+            rest = [s for s in vlib.REPR if s not in full] + pick_extra([s for s in vlib.ALL if s not in vlib.REPR], seed, 2)
+            big = dict(mc=4, mt=6, mo=14)      # preamble (10 calls) + 4 calls: 2 more crates, 2 more tracks
+            small = dict(mc=3, mt=6, mo=14)
+        else:
+            full = vlib.ALL
+            rest = []
+            big = dict(mc=4, mt=6, mo=15)
+            small = big
+        for s in full:
+            st, sc = scripts_for(vlib.family(s), big["mc"], big["mt"], big["mo"], "diverge")
+            ws.append(Workload(s, sc, ["a", "d"], origin=st["instance"]))
+        for s in rest:
+            st, sc = scripts_for(vlib.family(s), small["mc"], small["mt"], small["mo"], "diverge")
+            ws.append(Workload(s, sc, ["a", "d"], origin=st["instance"]))
+        # the same operations from a fresh library (ids coincide) as a second instance
+        for s in (full if tier != "quick" else ["1.18.0o", "2.21.2"]):
+            st, sc = scripts_for(vlib.family(s), 2, 2, 5, "none")
+            ws.append(Workload(s, sc, ["a", "d"], origin=st["instance"]))
+        return ws
+
+    return history_check(
+        "C08", tier, seed, build,
+        rule="every transition of the bounded Library graph over create/remove track, create/remove crate, add_track, "
+             "remove_track (from crate), clear_tracks is replayed, starting after a preamble that makes crate ids, track "
+             "ids and membership-row ids diverge; crate.tracks() (as a sequence, so duplicates show), "
+             "track.containing_crates() where supported and database.tracks() must equal the abstract membership; "
+             "MemInv / MemFrame are evaluated on every trace step",
+        assumptions=["containing_crates() is 'supported' only in the 1.x family (2.x throws 'not yet implemented')"])
+
+
+def check_C09(tier, seed):
+    """Ordered listings keep every sibling and entry exactly once, in order (2.x)."""
+    def build(wd, mc_stats):
+        ws = []
+        if tier == "quick":
+            st, sc = vlib.mc_forest(wd, "v2", 4, 5)
+            st2, sc2 = vlib.mc_forest(wd, "v2", 3, 5)
+            mc_stats.extend([st, st2])
+            for s in vlib.V2:
+                if s in ("2.18.0", "2.21.2"):
+                    ws.append(Workload(s, sc, libcheck.NAMES4, origin=st["instance"]))
+                else:
+                    ws.append(Workload(s, sc2, libcheck.NAMES4, origin=st2["instance"]))
+            st3, sc3 = vlib.mc_forest(wd, "v2", 3, 15, max_tracks=7, with_tracks=True, crate_ops="basic", opnames=("a",), pre="diverge")
+            mc_stats.append(st3)
+            for s in ("2.18.0", "2.20.1", "2.20.3", "2.21.2"):
+                ws.append(Workload(s, sc3, ["a", "d"], origin=st3["instance"]))
+        else:
+            st, sc = vlib.mc_forest(wd, "v2", 5, 5)
+            st3, sc3 = vlib.mc_forest(wd, "v2", 3, 16, max_tracks=7, with_tracks=True, crate_ops="basic", opnames=("a",), pre="diverge")
+            mc_stats.extend([st, st3])
+            for s in vlib.V2:
+                ws.append(Workload(s, sc, libcheck.NAMES4, origin=st["instance"]))
+                ws.append(Workload(s, sc3, ["a", "d"], origin=st3["instance"]))
+        return ws
+
+    return history_check(
+        "C09", tier, seed, build,
+        rule="2.x only: every transition of the bounded crate graph (create[_after] at first/middle/last position, "
+             "set_parent, set_name, remove) and of the membership graph (add/remove/clear with 3 entries) is replayed; "
+             "root_crates(), children() and crate.tracks() are compared as *sequences* with the abstract sibling / entry "
+             "order; OrderStable is evaluated on every trace step",
+        assumptions=["an un-positioned create or move may land at any position among the new siblings (the property only "
+                     "says 'among'); create_*_after must land immediately after the given sibling"])
+
+
+def check_C16(tier, seed):
+    """Observing a library never modifies it."""
+    def build(wd, mc_stats):
+        ws = []
+        schemas = vlib.REPR if tier == "quick" else vlib.ALL
+        cache = {}
+        for s in schemas:
+            fam = vlib.family(s)
+            if fam not in cache:
+                st, sc = vlib.mc_forest(wd, fam, 3, 4)
+                st2, sc2 = vlib.mc_forest(wd, fam, 3, 13, max_tracks=5, with_tracks=True, crate_ops="basic", opnames=("a",), pre="diverge")
+                mc_stats.extend([st, st2])
+                cache[fam] = (st, sc, st2, sc2)
+            st, sc, st2, sc2 = cache[fam]
+            r = random.Random(seed * 1000 + vlib.ALL.index(s))
+            nmem, ndisk = (150, 60) if tier == "quick" else (len(sc), 400)
+            pick = sc if len(sc) <= nmem else r.sample(sc, nmem)
+            ws.append(Workload(s, pick, libcheck.NAMES4, mode="mem", flags={"rep": True}, origin=st["instance"]))
+            pick2 = sc2 if len(sc2) <= nmem else r.sample(sc2, nmem)
+            ws.append(Workload(s, pick2, ["a", "d"], mode="mem", flags={"rep": True}, origin=st2["instance"]))
+            pick3 = (sc + sc2) if len(sc + sc2) <= ndisk else r.sample(sc + sc2, ndisk)
+            ws.append(Workload(s, pick3, libcheck.NAMES4 + ["d"], mode="disk", flags={"rep": True, "reopen": True}, origin=st["instance"]))
+        return ws
+
+    return history_check(
+        "C16", tier, seed, build,
+        rule="after every call of every replayed history the complete observation batch (every getter, listing and "
+             "lookup of database / crate / track handles; on disk also database_exists() and load_database()) is "
+             "executed twice; the trace spec (NoWrite) requires: no non-read-only statement stepped, "
+             "sqlite3_total_changes unchanged, digest of all tables unchanged, second observation identical, and on "
+             "disk the directory listing and file contents unchanged",
+        assumptions=["sqlite3_stmt_readonly classifies statements correctly", "verify() is exercised by C11/C17 runs"])
